@@ -12,8 +12,8 @@ REQUIRED_THEOREMS = ["Sonic.Props.C01." + n for n in ["C01_skipSpace_naive", "C0
                                                          "C01_accept_iff", "C01_accept_iff_fresh", "C01_ok_offset", "C01_fail_shape", "C01_pad_irrelevant_partial",
                                                          "C01_width_irrelevant_partial", "C01_pad_irrelevant", "C01_pad_irrelevant_fresh", "C01_width_irrelevant",
                                                          "C01_width_differs"]]
-CONFIGS = [("avx2", "prod"), ("sse", "prod"), ("avx2", "san"), ("sse", "san")]
-CONFIGS_THOROUGH = CONFIGS + [("dyn", "prod"), ("dyn", "san")]
+CONFIGS = [("avx2", "prod"), ("sse", "prod"), ("avx2", "san"), ("sse", "san"), ("dyn", "prod")]
+CONFIGS_THOROUGH = CONFIGS + [("dyn", "san")]
 PARSE_CODES = {"1", "2", "3", "4", "5", "6", "7", "15"}
 RULE = ("valid texts from a type-directed generator (all kinds, nesting, member counts incl. 0, duplicate keys, whitespace runs of "
         "0..130 bytes); EVERY proper prefix of valid texts up to 300 bytes; single-byte replacements / deletions / insertions at every "
